@@ -412,6 +412,12 @@ class _FuncAnalysis:
     # -- discharge by form
     def _discharge(self, construct, it):
         par = getattr(construct, "_parent", None)
+        # inside a `raise` statement: the order can only reach the exception's text
+        p_ = construct
+        while p_ is not None and not isinstance(p_, (ast.FunctionDef, ast.AsyncFunctionDef)):
+            if isinstance(p_, ast.Raise):
+                return "only builds the argument of an exception that is raised"
+            p_ = getattr(p_, "_parent", None)
         if isinstance(construct, ast.SetComp):
             return "result is itself a set"
         if isinstance(construct, ast.DictComp):
